@@ -110,7 +110,7 @@ def writer_cases(draw):
             segs.append((a, len(data)))
             continue
         if share:
-            ds = 2 * d.int(0, (pool_len - 2) // 2)
+            ds = d.int(0, pool_len - 2)
             sdl = 2 * d.int(1, (pool_len - ds) // 2)
             length = max(length, sdl + tail)
             if not (a + length <= U64 and all(a + length <= s or s + l <= a for s, l in segs)):
@@ -118,6 +118,11 @@ def writer_cases(draw):
             ops.append(['segment', a, length, ds, sdl, 'shared'])
             segs.append((a, length))
             continue
+        if d.pct() < 15:
+            # an odd-length, unreferenced filler: the next data range starts at an odd pool index
+            filler = [word_value(d, w, 1) for _ in range(d.choice([1, 1, 3, 5]))]
+            ops.append(['data', filler])
+            pool_len += len(filler)
         ops.append(['data', data])
         ds = pool_len
         pool_len += len(data)
@@ -427,6 +432,8 @@ def run_writer_case(case):
             shared = any(op[0] == 'segment' and op[5] in ('shared', 'data-overlap') for op in case['ops'])
             if shared or any(l > dl for _, l, _, dl in segs):
                 nontrivial = True
+        if any(ds % 2 and dl > 0 for _, _, ds, dl in segs):
+            cl.append('odd data start')
         if any(l - dl >= 1000 for _, l, _, dl in segs):
             cl.append('lazy zero tail')
         if any(0 < l - dl < 1000 for _, l, _, dl in segs):
